@@ -7,7 +7,7 @@ from fractions import Fraction
 import numpy as np
 
 from geolib import call_impl
-from proto import ET, dec_bools, run_driver
+from proto import ET, dec_bools, proj_close_nn, run_driver
 
 ID = "C16"
 LEAN_FILES = ["Geo/Props/C16.lean", "Geo/Props/C16b.lean"]
@@ -330,6 +330,50 @@ def element_stream(ctx, n):
             ctx.disagree("C16:polygon-collection-element", desc + f" queries {qs}", "(Polygon, coll[i], iterated element) agree", r[1:3], replay=[desc])
 
 
+def complex_segment_stream(ctx, n, prefix="C16"):
+    """segments whose end points have complex coordinates: a + x (b − a) is contained exactly for real 0 <= x <= 1; for prefix C18
+    also the intersection with a line through such a point"""
+    import geometer as g
+    rng = ctx.rng
+    for k in range(n):
+        dim = rng.choice([2, 2, 3])
+        def cp():
+            return np.array([complex(rng.randint(-3, 3), rng.randint(-3, 3)) for _ in range(dim)])
+        a, b = cp(), cp()
+        if np.allclose(a, b) or not (np.any(a.imag) or np.any(b.imag)):
+            continue
+        d = b - a
+        if abs(d @ d) < 1e-9:
+            continue                      # isotropic direction: the bilinear Gram determinant vanishes (outside the statement)
+        xs = [0.0, 0.25, 0.5, 1.0, 1.5, 3.0, -0.5]
+        exp = [0 <= x <= 1 for x in xs]
+        desc = f"complex segment {a.tolist()} -> {b.tolist()}, parameters {xs}"
+        ctx.case(desc)
+        ctx.count("segment:complex")
+        S = call_impl(lambda: g.Segment(g.Point(*a), g.Point(*b)))
+        if S[0] != "ok":
+            continue
+        r = call_impl(lambda: [bool(S[1].contains(g.Point(*(a + x * d)))) for x in xs])
+        if r[0] != "ok" or r[1] != exp:
+            ctx.disagree(f"{prefix}:segment:complex:contains", desc, exp, r[1:3], replay=[desc])
+            continue
+        if prefix == "C18" and dim == 2:
+            # a line through the point of parameter x (and a point off the supporting line): the point is returned iff 0 <= x <= 1
+            off = a + np.array([1.0, 2.0]) + 0.5 * d * 1j
+            for x in (0.5, 1.5):
+                p = a + x * d
+                L = call_impl(lambda: g.Line(g.Point(*p), g.Point(*off)))
+                if L[0] != "ok":
+                    continue
+                ri = call_impl(lambda: S[1].intersect(L[1]))
+                got = [np.asarray(q.array) for q in ri[1]] if ri[0] == "ok" else None
+                good = ri[0] == "ok" and ((x <= 1 and len(got) == 1 and proj_close_nn(np.append(p, 1.0), got[0], 1e-7)) or (x > 1 and len(got) == 0))
+                if not good:
+                    ctx.disagree(f"{prefix}:segment:complex:intersect", desc + f" line through parameter {x}", "the point" if x <= 1 else "[]",
+                                 ri[1:3] if ri[0] != "ok" else [np.round(q, 5).tolist() for q in got], replay=[desc])
+                    break
+
+
 def moved_stream(ctx, n):
     """a polygon of space obtained by moving another one (translation out of its plane, rotation): membership must follow the
     moved vertices (cached supporting plane / edges)"""
@@ -397,6 +441,7 @@ def correspondence(ctx):
         polygon_stream(ctx, 45 if ctx.tier != "thorough" else 400, False)
     segment_stream(ctx, ctx.budget(200, 3000))
     collection_stream(ctx, ctx.budget(60, 600))
+    complex_segment_stream(ctx, ctx.budget(40, 400))
     element_stream(ctx, ctx.budget(40, 400))
     import colllib
     colllib.run(ctx, ctx.budget(200, 2500), prefix="C16",
